@@ -85,15 +85,17 @@ CHECKS = {
                     "silence) is sent under an accepting, a rejecting and a user/password authenticator, followed in the same write by SUBSCRIBE '#', a retained PUBLISH and a QoS 1 PUBLISH. The reference "
                     "codec classifies the packet as must-accept / must-refuse (with the admissible CONNACK codes) / either; the check asserts the CONNACK code, that a refused connection is closed by the "
                     "broker, that nothing sent on it had any effect (in-process witness on '#', retained store, SessionPresent of a later CleanSession=0 connect with the same id) and that code 0 "
-                    "goes together with the later packets taking effect. The product is enumerated completely; mutants are sampled."),
+                    "goes together with the later packets taking effect. The product is enumerated completely; mutants are sampled. Unit default-config: the same acceptance on the zero-value Server "
+                    "(default providers, authenticator, timeouts, buffer size): generated valid CONNECTs (CleanSession, keep-alive 0..65535, will, credentials, zero-length identifier) are answered with code 0 and the accepted connection works (SUBSCRIBE granted, PUBLISH and will delivered)."),
         level_note=("Trusted: harness/ref/codec (strict decode + documented id policy), the classification in c11_test.go: only malformations the specification makes a server refuse are 'must-refuse'; "
                     "everything the decoder's 3.1 compatibility tolerates is 'either' (only consistency is asserted there)."),
         rule=("unit enum: the enumerated product (one broker per case); unit random: rapid-generated CONNECT variants with 0-2 mutations; non-trivial = the first packet was not accepted and was "
-              "followed by effect-bearing packets; distinct = FNV-64 of the case JSON"),
-        assumptions=["ConnectTimeout is 1 s in the fixture", "client ids of 24-32 printable characters and inputs the 3.1-compatible decoder tolerates are accepted either way"],
+              "followed by effect-bearing packets; unit default-config: every case counts (one default broker per process, identifiers and topics unique per case); distinct = FNV-64 of the case JSON"),
+        assumptions=["ConnectTimeout is 1 s in the fixture (library default in unit default-config)", "client ids of 24-32 printable characters and inputs the 3.1-compatible decoder tolerates are accepted either way"],
         units=[
             dict(name="enum", test="TestC11Enum", kind="enum", shards=(4, 14)),
             dict(name="random", test="TestC11Random", checks=(12000, 4000000), shards=(4, 14), timeout=(240, 3000)),
+            dict(name="default-config", test="TestC11Defaults", checks=(600, 100000), shards=(2, 8), timeout=(240, 3000)),
         ]),
 
     "C12": dict(
@@ -174,7 +176,7 @@ CHECKS = {
         level_note=("Trusted: harness/ref/codec (written from the specification, checked against the spec's and the repository's example packets). Inputs the library accepts leniently but the "
                     "strict reference rejects are outside the re-encode identity (counted only). Messages the setter API cannot express are checked on the decode/copy path only."),
         rule=("unit fields: rapid-generated strict-valid packets; non-trivial = a length at a listed boundary, or >= 4 filters/return codes, or a non-default flag combination; distinct = FNV-64 of "
-              "(type, remaining length, flags, id, field lengths, content hash). unit modify: decode a generated packet, apply 1-3 setter calls, compare with the reference encoding of the changed fields (non-trivial = a setter applied). unit boundaries: enumerated table, distinct by construction. unit counter: one history per shard, non-trivial if it crossed a multiple of 65536"),
+              "(type, remaining length, flags, id, field lengths, content hash). unit modify: decode a generated packet, apply 1-3 setter calls, compare with the reference encoding of the changed fields (non-trivial = a setter applied; setters include AddTopic of a new or a listed filter and RemoveTopic of a listed or an unlisted one). unit boundaries: enumerated table, distinct by construction. unit counter: one history per shard, non-trivial if it crossed a multiple of 65536"),
         assumptions=["strings are printable ASCII (UTF-8 validity is never decisive)", "packet-id counter is process-global; no assumption about its start value"],
         units=[
             dict(name="fields", test="TestC03Fields", checks=(80000, 9000000), shards=(4, 14), timeout=(240, 3000)),
